@@ -1,62 +1,72 @@
-(* C17 refutations: for each finding class that has an implementation model, a concrete case on
-   which the faithful model returns a bag that is NOT the SQL join.  The same cases are the witnesses
-   of known_findings.d/C17.json and are re-run on the real code by every check (the observed rows are
-   the ones written here). *)
+(* C17 witnesses.
+   (a) Regression witnesses of the finding classes REPAIRED in /repo (1: 50ce016, 3 residual: 5934993,
+       4: 0005072, 8: 755317f, 2: b0661ca, 10: 2cb4862 + 07d36f7): on the cases that used to fail, the
+       models of the repaired code return what the implementation now returns, and that is the SQL
+       join.  (Historical: before the repairs the same cases were proved to be answered wrongly by the
+       models of the old code -- Int 1 / Float 1.0 never met in the grace hash join, `ON a1 = b1 AND
+       a2 < b2` lost its second conjunct, LEFT JOIN .. WHERE kept NULL-padded rows that fail WHERE,
+       0.0 / -0.0 keys never met in the hand-written hash path.)
+   (b) The one two-table class still open (3: bare names, equality between two columns of the same
+       input): the faithful model returns what the implementation returns, and it is not the SQL join.
+   The observed rows are those of the run that recorded the witnesses; every check re-runs them. *)
 From Coq Require Import ZArith List Bool.
 From TV Require Import Corr.C17.
 Import ListNotations.
 Open Scope Z_scope.
 
-(* class 1: grace hash join, keys Int 1 / Float 1.0.  The hash values are the ones std's
-   DefaultHasher produced in the run that recorded the witness. *)
 Definition w1 : case :=
   Exec AGraceDyn JInner 4 None false [0%nat] [0%nat] 2%nat 2%nat
     [([VInt 1; VInt 10], 2206609067086327257); ([VInt 2; VInt 20], 11876854719037224982)]
-    [([VFloat 4607182418800017408; VInt 100], 13833534234735907638); ([VInt 2; VInt 200], 11876854719037224982)]
-    (ORows [[VInt 2; VInt 20; VInt 2; VInt 200]]).
+    [([VFloat 4607182418800017408; VInt 100], 2206609067086327257); ([VInt 2; VInt 200], 11876854719037224982)]
+    (ORows [[VInt 1; VInt 10; VFloat 4607182418800017408; VInt 100]; [VInt 2; VInt 20; VInt 2; VInt 200]]).
 
-(* class 3: ON a1 = b1 AND a2 < b2 -- the residual conjunct is dropped *)
 Definition ta3 : table := [[VInt 1; VInt 1; VInt 10]; [VInt 2; VInt 1; VInt 20]; [VInt 3; VNull; VInt 30]].
 Definition tb3 : table := [[VInt 1; VInt 1; VInt 100]; [VInt 2; VInt 1; VInt 5]].
 Definition w3 : case :=
   Sql (mkq [(3%nat, ta3); (3%nat, tb3)] [(JInner, Some (EAnd (ECmp CEq (ECol 1) (ECol 4)) (ECmp CLt (ECol 2) (ECol 5))))] None (Some [0%nat; 3%nat]))
-      false true [ORows [[VInt 1; VInt 1]; [VInt 2; VInt 1]; [VInt 1; VInt 2]; [VInt 2; VInt 2]]].
-
-(* class 4: LEFT JOIN ... WHERE a2 = 10 -- WHERE acts as part of the match condition *)
+      false true [ORows [[VInt 1; VInt 1]; [VInt 2; VInt 1]]].
 Definition w4 : case :=
   Sql (mkq [(3%nat, ta3); (3%nat, tb3)] [(JLeft, Some (ECmp CEq (ECol 1) (ECol 4)))] (Some (ECmp CEq (ECol 2) (ELit (VInt 10)))) (Some [0%nat; 3%nat]))
-      false true [ORows [[VInt 1; VInt 1]; [VInt 1; VInt 2]; [VInt 2; VNull]; [VInt 3; VNull]]].
-
-(* class 8: keys 0.0 and -0.0 in the hash path *)
+      false true [ORows [[VInt 1; VInt 1]; [VInt 1; VInt 2]]].
 Definition w8 : case :=
   Sql (mkq [(2%nat, [[VInt 1; VFloat 0]; [VInt 2; VFloat 4607182418800017408]]);
             (2%nat, [[VInt 1; VFloat 9223372036854775808]; [VInt 2; VFloat 4607182418800017408]])]
            [(JInner, Some (ECmp CEq (ECol 1) (ECol 3)))] None (Some [0%nat; 2%nat]))
-      false true [ORows [[VInt 2; VInt 2]]].
+      false true [ORows [[VInt 1; VInt 1]; [VInt 2; VInt 2]]].
+Definition w2 : case :=
+  Sql (mkq [(3%nat, ta3); (3%nat, tb3)] [(JInner, Some (ECmp CEq (ECol 1) (ECol 4)))] None None)
+      false true [ORows [[VInt 1; VInt 1; VInt 10; VInt 1; VInt 1; VInt 100]; [VInt 2; VInt 1; VInt 20; VInt 1; VInt 1; VInt 100];
+                         [VInt 1; VInt 1; VInt 10; VInt 2; VInt 1; VInt 5]; [VInt 2; VInt 1; VInt 20; VInt 2; VInt 1; VInt 5]]].
+Definition w10 : case :=
+  Sql (mkq [(3%nat, ta3); (3%nat, tb3)] [(JInner, Some (ECmp CLe (ECol 1) (ECol 4)))] (Some (ECmp CEq (ECol 3) (ELit (VInt 1)))) (Some [0%nat; 3%nat]))
+      true true [ORows [[VInt 1; VInt 1]; [VInt 2; VInt 1]]].
 
-Definition refuted (c : case) (k : Z) : bool :=
-  model_agrees c && negb (spec_ok c) && (known_class c =? k).
+(* still open: LEFT JOIN tb ON a1 = b1 AND a1 = a2, bare names *)
+Definition w3s : case :=
+  Sql (mkq [(3%nat, [[VInt 1; VInt 1; VInt 1]; [VInt 2; VInt 1; VInt 2]; [VInt 3; VNull; VInt 3]]); (2%nat, [[VInt 1; VInt 1]; [VInt 2; VInt 2]])]
+           [(JLeft, Some (EAnd (ECmp CEq (ECol 1) (ECol 4)) (ECmp CEq (ECol 1) (ECol 2))))] None (Some [0%nat; 3%nat]))
+      false true [ORows [[VInt 1; VInt 1]; [VInt 2; VInt 1]; [VInt 3; VNull]]].
 
-Lemma known_classes_refuted_l :
-  refuted w1 1 = true /\ refuted w3 3 = true /\ refuted w4 4 = true /\ refuted w8 8 = true.
+Definition repaired (c : case) : bool := model_agrees c && spec_ok c && (known_class c =? 0).
+Definition refuted (c : case) (k : Z) : bool := model_agrees c && negb (spec_ok c) && (known_class c =? k).
+
+Lemma repaired_classes_regression_l :
+  repaired w1 = true /\ repaired w2 = true /\ repaired w3 = true /\ repaired w4 = true /\ repaired w8 = true /\ repaired w10 = true.
 Proof. vm_compute. repeat split. Qed.
 
-(* what SQL defines for these four cases (so that the refutation is not an artefact of the comparison) *)
-Lemma refuted_expected_l :
-  (match w1 with Exec _ jt _ _ _ lk rk lw rw L R _ =>
-     bag_eqb (join_rows jt lw rw (on_tt (keys_expr lw lk rk)) (map fst L) (map fst R))
-             [[VInt 1; VInt 10; VFloat 4607182418800017408; VInt 100]; [VInt 2; VInt 20; VInt 2; VInt 200]]
-   | _ => false end) = true /\
-  (match w3 with Sql q _ _ _ => query_spec q | _ => None end) = Some [[VInt 1; VInt 1]; [VInt 2; VInt 1]] /\
-  (match w4 with Sql q _ _ _ => query_spec q | _ => None end) = Some [[VInt 1; VInt 1]; [VInt 1; VInt 2]] /\
-  (match w8 with Sql q _ _ _ => query_spec q | _ => None end) = Some [[VInt 1; VInt 1]; [VInt 2; VInt 2]].
+Lemma open_class_refuted_l :
+  refuted w3s 3 = true /\
+  (match w3s with Sql q _ _ _ => query_spec q | _ => None end) = Some [[VInt 1; VInt 1]; [VInt 2; VNull]; [VInt 3; VNull]].
 Proof. vm_compute. repeat split. Qed.
 
-(* the hash hypothesis of grace_eq_nested is exactly what fails on w1: the rows match, the hashes differ *)
-Lemma hash_respects_fails_on_w1_l :
+(* the hash hypothesis of grace_is_sql_join now holds on the former class-1 witness: the keys
+   Int 1 and Float 1.0 match AND carry the same DefaultHasher value (hash_join_key) *)
+Lemma hash_respects_on_w1_l :
   keys_match_static [VInt 1; VInt 10] [VFloat 4607182418800017408; VInt 100] [0%nat] [0%nat] = true /\
-  2206609067086327257 <> 13833534234735907638.
-Proof. split; [vm_compute; reflexivity|discriminate]. Qed.
+  (match w1 with Exec _ _ _ _ _ _ _ _ _ L R _ =>
+     forallb (fun l => forallb (fun r => implb (keys_match_static (fst l) (fst r) [0%nat] [0%nat]) (snd l =? snd r)) R) L
+   | _ => false end) = true.
+Proof. vm_compute. split; reflexivity. Qed.
 
 (* the static GraceHashJoinExecutor's own keys_match lets unrelated types "match" once their hashes
    collide; with such a (hypothetical) hash oracle its output is not the SQL join -- the theorem for
